@@ -92,6 +92,9 @@ PATHS = [
     ("destr-for-member-sets", "def acc = []; for [p, q] in values <*a = {S}, b = {S2} *> do append(acc, [p, q]) end; acc"),
     ("direct-join-map", "join({M}, '|')"), ("direct-first-last-map", "[first({M}), last({M})]"), ("render-list-of-map", "string(list({M}))"),
     ("direct-reverse-map", "string(reverse({M}))"), ("direct-enumerate-map", "string(enumerate({M}))"), ("direct-unique-map", "string(unique({M}))"),
+    ("seed-by-string", "set_seed('run-2024-A'); [random(1000), random(1000)]"), ("seed-by-date", "set_seed(date('20200101')); [random(1000), random(1000)]"),
+    ("seed-by-element", "set_seed(first(list({S}))); [random(1000), random(1000)]"), ("seed-by-decimal", "set_seed(1.5); random(1000)"),
+    ("seed-by-list", "set_seed(['a', 'b']); random(1000)"), ("seed-by-big-int", "set_seed(12345678901234567890123); [random(1000), random(1000)]"),
     ("hidden-members", "[x->_h for x in {S}]"), ("hidden-members-for", "def acc = []; for x in {S} do append(acc, x->_h) end; acc"),
     ("hidden-members-list", "[x->_h for x in list({S})]"), ("hidden-members-sorted", "[x->_h for x in sorted({S})]"),
     ("type-checks", "[x is string for x in {S}]"), ("contains", "[contains({S}, 'a'), 'a' in {M}]"), ("if-empty", "[{S} is empty, {M} is not empty]"),
